@@ -252,3 +252,26 @@ def run(ctx):
     from .nonzero import nonzero_instances
     nonzero_instances(ctx, em, "R07.7", "every token-moving message a liquidation reply can emit has an amount that is provably non-zero on the emitting path", 6,
                       lambda ckey: ckey.startswith("Liquidate>"), "the receiving module rejects a zero transfer and the Liquidate reverts")
+
+
+    # ---------------------------------------------------------------- R07.8
+    # a record left behind by an earlier transaction must not be able to block a liquidation: the Liquidate handler does
+    # not read the in-flight singletons (it only overwrites them) - a "slot occupied" test would turn one residue into
+    # a permanent denial
+    from .em import EM as _EM8
+    from .posflow import TMP as _TMP, LIQ as _LIQ
+    from .em import FUNDS as _FUNDS
+    ctx.rule("R07.8", "the Liquidate handler never reads the in-flight records (tmp-swap, tmp-liquidator, sent-funds): a leftover cannot block a liquidation", 1)
+    em8 = _EM8(ctx)
+    ex8 = em8.exec_step("Liquidate")
+    if ex8 is None:
+        ctx.lost("R07.8", "Liquidate execute step")
+    else:
+        bad8 = None
+        for q in ex8.ok_paths() + [p_ for p_ in ix.paths(ex8.fn) if p_.kind() == "err"]:
+            for e in q.events:
+                may, _must = ix.event_effects(e)
+                rd = sorted(it for (k, it) in may if k == "read" and it in (_TMP, _LIQ, _FUNDS))
+                if rd:
+                    bad8 = bad8 or "reads %s through %s" % (rd, e.name)
+        ctx.inst("R07.8", "no-in-flight-reads:Liquidate", bad8 is None, ex8.fn.where(), bad8 or "the handler only writes the in-flight records")
